@@ -24,7 +24,7 @@ ID = "C05"
 RULE = ("value x position x dialect: values are strings from an adversarial alphabet (quotes, backslashes, comment openers, placeholder look-alikes, control "
         "characters, NUL, non-ASCII incl. astral) mixed with arbitrary Unicode text, ints, finite floats, Decimals, bools, None, dates/times/datetimes "
         "(tz-aware too), UUIDs, enum members and nested JSON values; 19 positions (select list, criteria, IN, BETWEEN, LIKE, HAVING, ON, INSERT/REPLACE rows, "
-        "SET, function argument, CASE when/then/else, tuple, array, JSON term, column default, upsert update and upsert WHERE); six classes. Non-trivial = the "
+        "SET, function argument, CASE when/then/else, tuple, array, JSON term, column default, upsert update and upsert WHERE, LOAD DATA file name (MySQL), AT TIME ZONE zone); six classes. Non-trivial = the "
         "value has a special character class or a non-trivial text form (negative, exponent, tz-aware, nested JSON); distinct = distinct (value, position, class).")
 ASSUMPTIONS = [
     "string-escape rules per dialect as implemented in pbt/lex.py (vendor lexical grammars); MySQL with default sql_mode (backslash escapes on, \" is a string delimiter)",
